@@ -177,6 +177,14 @@ def asciiWs (n : Nat) : Bool := n == 9 || n == 10 || n == 11 || n == 12 || n == 
 /-- `b.lstrip()` -/
 def lstripWs {β : Type} [Byte β] (b : List β) : List β := b.dropWhile (fun c => asciiWs (Byte.val c))
 
+/-- what `str.lstrip()` removes (code points; `str.isspace`) -/
+def unicodeWs (n : Nat) : Bool :=
+  [9, 10, 11, 12, 13, 28, 29, 30, 31, 32, 133, 160, 5760, 8192, 8193, 8194, 8195, 8196, 8197, 8198, 8199, 8200, 8201, 8202,
+    8232, 8233, 8239, 8287, 12288].contains n
+
+/-- `s.lstrip()` on a str (an item is a code point, `Byte.val` its value) -/
+def lstripWsT {β : Type} [Byte β] (b : List β) : List β := b.dropWhile (fun c => unicodeWs (Byte.val c))
+
 /-- `b.rstrip(chars)` -/
 def rstripSet {β : Type} [Byte β] (b chars : List β) : List β :=
   (b.reverse.dropWhile (fun c => (chars.map Byte.val).contains (Byte.val c))).reverse
